@@ -17,7 +17,7 @@ ASSUMPTIONS = [
 
 THRX = {"C14", "C17", "C18"}
 SEQX_ALSO = {"C01", "C15"}
-THRX_ALSO = {"C03", "C04", "C09", "C12", "C15"}
+THRX_ALSO = {"C03", "C04", "C09", "C10", "C11", "C12", "C15"}
 MACX = {"C01", "C03", "C04", "C05", "C06", "C07", "C09", "C10", "C11", "C12", "C13", "C14", "C15", "C16", "C20"}
 
 
